@@ -64,6 +64,10 @@ def io_workload(rng, prop):
             if rng.random() < 0.5:
                 k = rng.randrange(n)
                 wl['names'][k] = (wl['names'][k] + gen.rand_seq(rng, gen.NAME_SAFE, maxlen))[:maxlen - len(str(k)) - 1] + '.' + str(k)
+    if rng.random() < 0.15:
+        # the property's name alphabet is letters, digits and _ . | - in ANY position, the first included
+        for k in rng.sample(range(n), rng.randint(1, n)):
+            wl['names'][k] = rng.choice('_.|-') + wl['names'][k]
     case_mode = rng.choice([0, 0, 1, 2])
     wl['seqs'] = [gen.recase(rng, s, case_mode) for s in wl['seqs']]
     return wl
@@ -207,6 +211,11 @@ def judge(spec, results):
                 if o is None:
                     continue
                 data = o.out.get('file:' + path) if path else o.out.get('stdout', b'')
+                if not path and data is not None:
+                    # without -o the alignment shares stdout with kalign's log (warnings are not silenced by -q):
+                    # the property speaks about the files kalign writes, so only the alignment part is judged
+                    import props_sched
+                    data = props_sched._strip_log(data, f)
                 if o.rc != 0:
                     if path and data is not None:
                         add('C15_FAILED_WRITE_LEFT_FILE', 'the CLI failed and left a %d-byte %s file behind (%s)' % (len(data), f, o.out.get('stderr', b'')[:160].decode('latin-1').replace('\n', ' / ')))
